@@ -3,6 +3,7 @@
 (* An event is a record with at least                                     *)
 (*   t  : timestamp (Nat)          c : creation sequence number (unique)   *)
 (*   d  : daemon flag              x : cancelled flag                      *)
+(*   z  : target crashed (by an injected fault) at the event's timestamp   *)
 (* "pending" = pushed into the simulation and not yet popped.              *)
 EXTENDS Naturals, Sequences, FiniteSets
 
@@ -12,7 +13,7 @@ Inf == 999999          \* "no end_time"
 Before(a, b) == a.t < b.t \/ (a.t = b.t /\ a.c < b.c)
 
 \* events of P that the engine still owes a delivery (live ones)
-Eligible(P, clock) == { e \in P : ~e.x /\ e.t >= clock }
+Eligible(P, clock) == { e \in P : ~e.x /\ e.t >= clock /\ ~e.z }
 
 \* (b),(c): e may be delivered next only if no other live pending event precedes it
 IsLegalNext(e, P, clock) ==
